@@ -15,7 +15,7 @@ open KMap
 /-- what a reward update of `v` at `now` adds to the accumulator of a delegator holding `sa` atomics -/
 def creditAmt (s : SState) (now : Nat) (v : String) (vo : Validator) (sa : Nat) : Nat :=
   match get? s.vinfo v with
-  | some vi => if vi.last < now then creditOf vi.stake s.info.apr.atomics vo.commission.atomics sa (now - vi.last) else 0
+  | some vi => if vi.last < now then creditOf vi.stake s.info.apr.atomics vo.commission.atomics sa (elapsed now vi.last) else 0
   | none => 0
 
 /-- the record of `(d, v)` across an `update_rewards` of `v` -/
@@ -171,7 +171,7 @@ theorem pair_undelegate {c c' : Chain} {a d : Addr} {w v : String} {coin : Coin}
         split at hst
         · obtain ⟨sh', r1, _, r3, _, _, _, r7⟩ := updateStake_pair hi hst hne hp.record hp.vinfo hp.val (hp.pos ht)
           exact ⟨sh', r1, r3, by
-            have : ({ st with queue := st.queue ++ [⟨a, w, coin.amount, c.time + st.info.unbondingTime⟩] } : SState).validator? v
+            have : ({ st with queue := st.queue ++ [⟨a, w, coin.amount, c.time + NS * st.info.unbondingTime⟩] } : SState).validator? v
                 = st.validator? v := rfl
             rw [this, validator?_congr r7]; exact hp.val⟩
         · simp at hst
@@ -483,7 +483,7 @@ def creditL (c : Chain) (d : Addr) (v : String) (l : Ledger) : Ledger :=
   | some vi, some vo =>
     if vi.last < c.time then
       l.step c.st.info.apr.atomics vo.commission.atomics
-        (.credit ⟨vi.stake, (curShares c.st d v).stake.atomics, c.time - vi.last⟩)
+        (.credit ⟨vi.stake, (curShares c.st d v).stake.atomics, elapsed c.time vi.last⟩)
     else l
   | _, _ => l
 
@@ -746,7 +746,9 @@ theorem query_is_credit {cfg : Cfg} {c : Chain} {d : Addr} {v : String} {vo : Va
   simp only [Dec.floor, Dec.add, hcr, creditAmt, hp.vinfo]
   by_cases hlt : vi.last < c.time
   · simp [hlt]
-  · have : c.time - vi.last = 0 := by omega
+  · have : elapsed c.time vi.last = 0 := by
+      unfold elapsed
+      exact Nat.sub_eq_zero_of_le (Nat.div_le_div_right (by omega))
     simp [hlt, this, creditOf]
 
 /-- C15 upper and lower bound for every run of the model.
